@@ -480,6 +480,8 @@ class Device(object):
         rid = self._new_remote_id(local)
         s = Stream(len(self.all_streams), local, rid, dest)
         s.session = self.sessions
+        s.open_pk = len(self.host_pkts) - 1
+        s.open_t = now
         self.all_streams.append(s)
         self.by_local[local] = s
         svc = self._make_service(s, dest)
@@ -829,15 +831,18 @@ class SyncService(object):
         pieces = cut_by_plan(data, plan, limit, boundaries)
         # reach probes: did a record header get split across WRTEs?
         pos = 0
-        ends = set()
+        ends = []
         for p in pieces[:-1]:
             pos += len(p)
-            ends.add(pos)
+            ends.append(pos)
         hdrlen = self.cur_hdrlen
-        for b in [0] + list(boundaries):
-            if any(b < e < b + hdrlen for e in ends):
-                dev.probe('sync_header_split_across_wrte')
-                break
+        if ends:
+            import bisect
+            for b in [0] + list(boundaries):
+                j = bisect.bisect_right(ends, b)
+                if j < len(ends) and ends[j] < b + hdrlen:
+                    dev.probe('sync_header_split_across_wrte')
+                    break
         if len(pieces) > 1:
             dev.probe('sync_reply_multi_wrte')
         for p in pieces:
